@@ -73,7 +73,7 @@ FRESH_EXTERNAL_CTORS = {("collections", "deque"), ("collections", "defaultdict")
                         ("collections", "Counter"), ("copy", "copy"), ("copy", "deepcopy")}
 REFLECTIVE_BUILTINS = {"globals", "vars", "locals", "exec", "eval", "__import__"}
 IMMUTABLE_ANNOTATIONS = {"int", "str", "float", "bool", "bytes", "complex"}
-DECLARED_EXTERNAL_MODULES = {"random": "random", "re": "regex", "regex": "regex", "json": "json", "sys": "sys"}
+DECLARED_EXTERNAL_MODULES = {"random": "random", "re": "regex", "regex": "regex", "json": "json", "sys": "sys", "iregexp_check": "iregexp_check"}
 BENIGN_STDLIB = {"abc", "typing", "enum", "collections", "contextlib", "argparse", "collections.abc", "__future__",
                  "heapq", "copy", "functools", "itertools", "operator"}
 TYPING_NAMES = {"Union", "Optional", "List", "Dict", "Tuple", "Callable", "Type", "Iterable", "Iterator",
